@@ -62,4 +62,14 @@ let () =
         let b = List.nth bs (int_of_nat c) in
         List.map (fun cell -> lk qnnSF m.dl b (asg_of (m.scope c) cell)) (cells (List.map m.shape (m.scope c)))) (seqn 0 n) in
     (match z with Some z -> str_q z | None -> "-") ^ " " ^ String.concat " " (List.map (fun l -> str_list str_q l) tbls));
+  (* mle_src <model> : the GENERATED GraphicalModel.mle; the model's factors are the clique marginals mu_c, cliques numbered in self.cliques order *)
+  reg "mle_src" (fun () ->
+    let m = rmodel () in
+    let n = int_of_nat m.ncl in
+    let marg = List.map (fun c -> mat qnnSF m.shape m.dl (m.psi c)) (seqn 0 n) in
+    let ps = mle qnnSF m.shape m.dl m.ncl m.scope marg in
+    let tbls = List.map (fun c ->
+        let b = List.nth ps (int_of_nat c) in
+        List.map (fun cell -> lk qnnSF m.dl b (asg_of (m.scope c) cell)) (cells (List.map m.shape (m.scope c)))) (seqn 0 n) in
+    String.concat " " (List.map (fun l -> str_list str_q l) tbls));
   ()
